@@ -336,7 +336,7 @@ def check_C03(ctx):
                        '(run by the Lean driver; soundness proved) and run under ASan/_GLIBCXX_ASSERTIONS without report; non-trivial = corner case or ≥ 2 program definitions')
     ctx.sample(cases[0]['text'])
     ctx.sample(cases[-1]['text'])
-    ctx.assumptions.append('C03_gen_wf (every output of the generator model is well-formed) is not proved universally; instead wfCheck (proved sound) validates every emitted program: translation validation')
+    ctx.assumptions.append('C03_gen_wf / C03_compile_wf are proved for the generator MODEL; for the implementation, wfCheck (proved sound) validates every program it emits (translation validation) and the GEN stage correspondence compares its bytecode with the model\'s')
     return finish(ctx)
 
 
